@@ -499,6 +499,7 @@ pub fn run(ctx: &Ctx, st: &mut Stats) {
         drop(tx);
         let mut finished = 0usize;
         let mut last = Instant::now();
+        let mut cpu_mark = crate::rec::cpu_s();
         let stall_s: f64 = std::env::var("VERIF_DEADLOCK_S").ok().and_then(|s| s.parse().ok()).unwrap_or(20.0);
         let desc = json!({"concurrent_callers": callers, "workers": w, "jobs": jobs.iter().map(|j| json!({"site": j.0, "method": j.1, "start": d2s(j.2), "days": j.3})).collect::<Vec<_>>()});
         while finished < callers {
@@ -506,6 +507,7 @@ pub fn run(ctx: &Ctx, st: &mut Stats) {
                 Ok((i, ok, pm)) => {
                     finished += 1;
                     last = Instant::now();
+                    cpu_mark = crate::rec::cpu_s();
                     st.evaluations += 6;
                     if !ok {
                         st.violate(if pm.is_empty() { "parallel_differs_from_sequential" } else { "panic" }, &desc, json!({"caller": i, "panic": pm, "under": "concurrent callers"}));
@@ -515,6 +517,11 @@ pub fn run(ctx: &Ctx, st: &mut Stats) {
                 Err(mpsc::RecvTimeoutError::Timeout) => {
                     if last.elapsed().as_secs_f64() > stall_s && all_other_threads_sleeping() {
                         st.violate("deadlock", &desc, json!({"why": "concurrent callers: no caller finished for the stall window and every thread is asleep", "callers_finished": finished, "callers": callers}));
+                        st.extra.insert("aborted_after_deadlock".into(), json!(true));
+                        break;
+                    }
+                    if crate::rec::cpu_s() - cpu_mark > 90.0 && last.elapsed().as_secs_f64() > 30.0 {
+                        st.violate("no_progress_while_spinning", &desc, json!({"why": "concurrent callers: no caller finished although the process burned CPU for the whole window", "callers_finished": finished, "callers": callers}));
                         st.extra.insert("aborted_after_deadlock".into(), json!(true));
                         break;
                     }
